@@ -53,9 +53,10 @@ let parse_op (s : string) : pop =
   | _ -> PBad
 
 let cut_kind inp =
+  let at i = (String.sub inp 0 i, String.sub inp (i+1) (String.length inp - i - 1)) in
   match String.index_opt inp ' ' with
-  | Some i -> (String.sub inp 0 i, String.sub inp (i+1) (String.length inp - i - 1))
-  | None -> (inp, "")
+  | Some i -> at i
+  | None -> (match String.index_opt inp '_' with Some i -> at i | None -> (inp, ""))   (* extras print '_' for the blank *)
 
 (* ------------------------------------------------------------------ the model *)
 let me (k, p) = (z_of_int k, z_of_int p)
